@@ -272,7 +272,7 @@ UFO_NAMES = ["a1", "a2", "o0", "ga", "x0", "y0", "x1", "y1", "x2", "y2"] + [f"t{
 def _ufo_layers_case(v):
     """v(name) -> number: the three layers the job runs through _ufo_colr_layers"""
     a1, a2 = v("a1"), v("a2")
-    lin = P.PaintLinearGradient(stops=(P.ColorStop(v("o0"), Color(255, 0, 0, a1)), P.ColorStop(1.0, Color(0, 0, 255, 0.5))), extend=P.Extend.REPEAT,
+    lin = P.PaintLinearGradient(stops=(P.ColorStop(v("o0"), Color(255, 0, 0, a1)), P.ColorStop(0.75, Color(0, 0, 255, 0.5)), P.ColorStop(1.0, Color.current_color(alpha=0.25))), extend=P.Extend.REPEAT,
                                 p0=Point(v("x0"), v("y0")), p1=Point(v("x1"), v("y1")), p2=Point(v("x2"), v("y2")))
     return (
         P.PaintGlyph(glyph="g0", paint=P.PaintSolid(Color(10, 20, 30, a2))),
@@ -296,7 +296,8 @@ def _ufo_layers_props(layers, d, eq, B):
     out += [("PaintTransform format", B(t["Format"] == 12))] + [(f"transform[{k}] copied", eq(a, b)) for k, (a, b) in enumerate(zip(t["Transform"], layers[1].transform))]
     g = t["Paint"]["Paint"]
     lin = layers[1].paint.paint
-    out += [("linear gradient: format, extend, stop palette indices", B(g["Format"] == 4 and g["ColorLine"]["Extend"] == "repeat" and [s["PaletteIndex"] for s in g["ColorLine"]["ColorStop"]] == [1, 2])),
+    out += [("linear gradient: format, extend, stop palette indices", B(g["Format"] == 4 and g["ColorLine"]["Extend"] == "repeat" and [s["PaletteIndex"] for s in g["ColorLine"]["ColorStop"]] == [1, 2, 0xFFFF])),
+            ("currentColor stop alpha", eq(g["ColorLine"]["ColorStop"][2]["Alpha"], 0.25)),
             ("stop 0 alpha", eq(g["ColorLine"]["ColorStop"][0]["Alpha"], lin.stops[0].color.alpha)), ("stop 1 alpha", eq(g["ColorLine"]["ColorStop"][1]["Alpha"], 0.5)),
             ("stop 0 offset", eq(g["ColorLine"]["ColorStop"][0]["StopOffset"], lin.stops[0].stopOffset))]
     for k, val in (("x0", lin.p0[0]), ("y0", lin.p0[1]), ("x1", lin.p1[0]), ("y1", lin.p1[1]), ("x2", lin.p2[0]), ("y2", lin.p2[1])):
@@ -370,6 +371,8 @@ def jobs(tier):
     for upem, quant in ((1000, None), (1024, 7)):
         js.append(Job(f"colr_ufo[PQ,upem={upem},q={quant}]", C05.job_colr_ufo, order="PQ", upem=upem, quant=quant))
     js.append(Job("bounds[PaintTransform,square,step=20]", C05.job_bounds, template="PaintTransform", outline="square", factor=20))
+    for kind, _ in C16._mk_transform_paints():
+        js.append(Job(f"to_ufo_paint[{kind}]", C16.job_to_ufo_paint, kind=kind))
     return js
 
 
